@@ -261,13 +261,17 @@ Proof.
 Qed.
 
 (* an empty key (or class id) has no faithful encoding: length 0 means "a 4-byte term follows", so the reader
-   swallows the next four bytes - and records them as a new term: the term set grows *)
+   swallows the next four bytes (and records them as a new term); here what it then takes for the next length runs
+   past the end of the data - an IOError since /repo 708c13e (before it the cut-short key was accepted and the value
+   came back different, see descriptor_key_cut_short_refuted_before_708c13e) *)
 Theorem descriptor_roundtrip_refuted :
-  exists d bs n d' t', d = DEnum [] [65; 66; 67; 68; 69] /\ write_dval [] d = Ok (bs, n) /\
-    read_dval [] (S (length bs)) [] (ostype_of d) bs = Ok (d', t', []) /\ d' <> d /\ t' = [[0; 0; 0; 5]].
+  exists d bs n, d = DEnum [] [65; 66; 67; 68; 69] /\ write_dval [] d = Ok (bs, n) /\
+    read_dval [] (S (length bs)) [] (ostype_of d) bs = Err IOErr /\
+    (* ... and when enough bytes follow, the swallowed bytes become a term: the term set grows *)
+    read_key [] [0; 0; 0; 0; 0; 0; 0; 5; 65] = Ok ([0; 0; 0; 5], [[0; 0; 0; 5]], [65]).
 Proof.
-  do 5 eexists. split; [reflexivity|]. split; [vm_compute; reflexivity|]. split; [vm_compute; reflexivity|].
-  split; [discriminate|reflexivity].
+  exists (DEnum [] [65; 66; 67; 68; 69]), [0; 0; 0; 0; 0; 0; 0; 5; 65; 66; 67; 68; 69], 13.
+  split; [reflexivity|]. split; [vm_compute; reflexivity|]. split; vm_compute; reflexivity.
 Qed.
 Print Assumptions descriptor_roundtrip_refuted.
 
@@ -837,6 +841,13 @@ Theorem layer_info_block_roundtrip_refuted :
                read_lr_block raw_codec 1 bs = Ok (mkLI 0 (Some []) (Some [])).
 Proof. exists [0; 0; 0; 0], 4. split; vm_compute; reflexivity. Qed.
 Print Assumptions layer_info_block_roundtrip_refuted.
+
+(* the key reader before /repo 708c13e (Psd/Legacy.v): a key cut short by the end of the data was accepted and became a
+   term; the current reader refuses it *)
+Theorem descriptor_key_cut_short_refuted_before_708c13e :
+  read_key_v0 [] [0; 0; 0; 0; 72] = Ok ([72], [[72]], []) /\ read_key [] [0; 0; 0; 0; 72] = Err IOErr.
+Proof. split; vm_compute; reflexivity. Qed.
+Print Assumptions descriptor_key_cut_short_refuted_before_708c13e.
 
 (* back-patching the length = emitting the inner bytes after the packed length *)
 Theorem length_block_backpatch : forall buf lb body,
